@@ -3,26 +3,59 @@
    Model: Model/InvCDF.v (dist.go:116-178, 197-209; alg.go:80-102).  F is ANY function Q -> Q
    (hypotheses are stated where they are needed); pwf is the executable family of piecewise
    cdfs (ramps, jumps, flat stretches) the correspondence check runs against the Go code. *)
-From MM Require Import Base.Num Model.Choose Model.Binom Model.Hyperg Model.InvCDF Proofs.InvCDF.
+From MM Require Import Base.Num Model.Choose Model.Binom Model.Hyperg Model.InvCDF Proofs.InvCDF Check.C07 Proofs.InvCDFCheck.
 Local Open Scope Q_scope.
 
-(* ----- bracket expansion by doubling from 0 (dist.go:146-167) -----
-   For monotone F the expansion returns lo < hi with F lo < y <= F hi; if it does not succeed
-   within the fuel there is NO x <= 2^fuel - 1 with y <= F x (rightwards), resp. no
-   x >= -(2^fuel - 1) with F x < y (leftwards): the explicit out-of-fuel result is never a wrong value. *)
-Theorem C07_bracket_inv : forall (F : Q -> Q), (forall a b, a <= b -> F a <= F b) -> forall fuel y,
-  match bracket F fuel y with
-  | Some (lo, hi) => F lo < y /\ y <= F hi /\ lo < hi /\ hi - lo <= qpow2 fuel
-  | None => if goes_right F y then forall x, x <= qpow2 fuel - 1 -> F x < y
-            else forall x, - (qpow2 fuel - 1) <= x -> y <= F x
+(* ----- bracket expansion by doubling from 0 (dist.go:146-167), WITH its float64 rounding -----
+   The model rounds every sum hiX+xdelta / loX-xdelta to 53 bits (ties to even) and overflows at 2^1024
+   (Model: f64_round_Z; all operands are integers, so this is the exact float64 result).  The probes do not
+   depend on the cdf: computed with that rounding they are 2^k - 1 for k <= 53, 2^k for 54 <= k <= 1023,
+   then the sum overflows — to the right, and mirrored to the left. *)
+Theorem C07_go_probes_closed_form :
+  rprobes go_expand_fuel 0 1 = go_probes /\ rend go_expand_fuel 0 1 = BInf false /\
+  lprobes go_expand_fuel 0 1 = go_probes_neg /\ lend go_expand_fuel 0 1 = BInf true.
+Proof. exact go_probes_closed_form. Qed.
+Print Assumptions C07_go_probes_closed_form.
+Theorem C07_go_probes_values : go_probes = map (fun k => probe_closed (Z.of_nat k)) (seq 1 1023).
+Proof. exact go_probes_values. Qed.
+Print Assumptions C07_go_probes_values.
+
+(* the function the correspondence check executes (a walk over the closed-form probes) IS the model of
+   the Go loops, for every F and y *)
+Theorem C07_bracket_fast_correct : forall (F : Q -> Q) y, bracket_fast F y = bracket F go_expand_fuel y.
+Proof. exact bracket_fast_correct. Qed.
+Print Assumptions C07_bracket_fast_correct.
+
+(* the result of the expansion, for ANY F: a bracket F lo < y <= F hi of neighbouring probes (no wider than
+   its distance from the origin, + 2), or an overflow after every probe on that side failed; never out of fuel *)
+Theorem C07_bracket_spec : forall (F : Q -> Q) y,
+  match bracket F go_expand_fuel y with
+  | BFound lo hi => F (inject_Z lo) < y /\ y <= F (inject_Z hi) /\ (lo < hi)%Z /\
+                    (- go_last_probe <= lo)%Z /\ (hi <= go_last_probe)%Z /\
+                    ((goes_right F y = true /\ 0 <= lo /\ hi <= 2 * lo + 2)%Z \/ (goes_right F y = false /\ hi <= 0 /\ 2 * hi - 2 <= lo)%Z)
+  | BInf false => goes_right F y = true /\ forall p, In p go_probes -> F (inject_Z p) < y
+  | BInf true => goes_right F y = false /\ forall p, In p go_probes_neg -> y <= F (inject_Z p)
+  | BFuel => False
+  end.
+Proof. exact bracket_spec. Qed.
+Print Assumptions C07_bracket_spec.
+
+(* for a non-decreasing F the infinite result is never a wrong finite value: +Inf only if F < y all the
+   way up to 2^1023, -Inf only if F >= y all the way down to -2^1023 *)
+Theorem C07_bracket_inv : forall (F : Q -> Q), (forall a b, a <= b -> F a <= F b) -> forall y,
+  match bracket F go_expand_fuel y with
+  | BFound lo hi => F (inject_Z lo) < y /\ y <= F (inject_Z hi) /\ (lo < hi)%Z
+  | BInf false => forall x, x <= inject_Z go_last_probe -> F x < y
+  | BInf true => forall x, - inject_Z go_last_probe <= x -> y <= F x
+  | BFuel => False
   end.
 Proof. exact bracket_inv. Qed.
 Print Assumptions C07_bracket_inv.
 
-(* enough fuel: witnesses on both sides within 2^fuel - 1 of the origin *)
-Theorem C07_bracket_found : forall (F : Q -> Q), (forall a b, a <= b -> F a <= F b) -> forall fuel y a b,
-  - (qpow2 fuel - 1) <= a -> F a < y -> b <= qpow2 fuel - 1 -> y <= F b ->
-  exists lo hi, bracket F fuel y = Some (lo, hi).
+(* witnesses on both sides within +-2^1023: a finite bracket is found *)
+Theorem C07_bracket_found : forall (F : Q -> Q), (forall a b, a <= b -> F a <= F b) -> forall y a b,
+  - inject_Z go_last_probe <= a -> F a < y -> b <= inject_Z go_last_probe -> y <= F b ->
+  exists lo hi, bracket F go_expand_fuel y = BFound lo hi.
 Proof. exact bracket_found. Qed.
 Print Assumptions C07_bracket_found.
 
@@ -37,24 +70,26 @@ Proof. exact bisect_inv. Qed.
 Print Assumptions C07_bisect_inv.
 
 (* ----- the complete routine for ANY non-decreasing F at 0 < y < 1 -----
-   never NaN, never a panic: either the UPPER end x2 of a pair with F x1 < y <= F x2 no wider than
-   2^fuel / 2^k (so x2 is within that distance of inf {x | F x >= y}, from above), or the explicit
-   out-of-fuel result (float64: the doubling reached +-Inf, which the code returns) *)
+   never NaN, never a panic: the UPPER end x2 of a pair with F x1 < y <= F x2 that is (hi - lo) / 2^k wide
+   (so x2 is within that distance of inf {x | F x >= y}, from above), or +Inf / -Inf with the guarantee of
+   C07_bracket_inv *)
 Theorem C07_invcdf_generic_regular : forall (F : Q -> Q) (bl bh : Q), (forall a b, a <= b -> F a <= F b) ->
-  forall fuel k y, 0 < y -> y < 1 ->
-  (exists lo hi x1 x2, invcdf_core F fuel k y = Some ((lo, hi), (x1, x2)) /\
-      invcdf_generic F bl bh fuel k y = IVal (XFin x2) /\ F x1 < y /\ y <= F x2 /\ x1 <= x2 /\
-      (x2 - x1) * qpow2 k <= qpow2 fuel)
-  \/ (invcdf_core F fuel k y = None /\ invcdf_generic F bl bh fuel k y = INoBracket (negb (goes_right F y))).
+  forall k y, 0 < y -> y < 1 ->
+  (exists lo hi x1 x2, bracket F go_expand_fuel y = BFound lo hi /\
+      bisect_bool F k y (inject_Z lo) (inject_Z hi) = (x1, x2) /\
+      invcdf_generic F bl bh go_expand_fuel k y = IVal (XFin x2) /\ F x1 < y /\ y <= F x2 /\ x1 <= x2 /\
+      (x2 - x1) * qpow2 k == inject_Z hi - inject_Z lo)
+  \/ (invcdf_generic F bl bh go_expand_fuel k y = IVal (XInf false) /\ forall x, x <= inject_Z go_last_probe -> F x < y)
+  \/ (invcdf_generic F bl bh go_expand_fuel k y = IVal (XInf true) /\ forall x, - inject_Z go_last_probe <= x -> y <= F x).
 Proof. exact invcdf_generic_regular. Qed.
 Print Assumptions C07_invcdf_generic_regular.
 
-(* the value RETURNED BY THE ALGORITHM (same fuel, same number of halvings) is non-decreasing in y —
-   for every F whatsoever, monotone or not *)
-Theorem C07_invcdf_generic_monotone_in_y : forall (F : Q -> Q) (bl bh : Q) fuel k y1 y2 r1 r2,
+(* the value RETURNED BY THE ALGORITHM (same number of halvings) is non-decreasing in y — for every F
+   whatsoever, monotone or not, infinite results included; and it always is a value (no panic) *)
+Theorem C07_invcdf_generic_monotone_in_y : forall (F : Q -> Q) (bl bh : Q) k y1 y2,
   0 < y1 -> y1 <= y2 -> y2 < 1 ->
-  invcdf_generic F bl bh fuel k y1 = IVal (XFin r1) -> invcdf_generic F bl bh fuel k y2 = IVal (XFin r2) ->
-  r1 <= r2.
+  exists r1 r2, invcdf_generic F bl bh go_expand_fuel k y1 = IVal r1 /\
+                invcdf_generic F bl bh go_expand_fuel k y2 = IVal r2 /\ xr_le r1 r2.
 Proof. exact invcdf_generic_monotone_in_y. Qed.
 Print Assumptions C07_invcdf_generic_monotone_in_y.
 
@@ -107,12 +142,22 @@ Theorem C07_invcdf_enclosure : forall pw y lo hi k, pw_wf pw -> 0 < y -> y <= 1 
 Proof. exact invcdf_enclosure. Qed.
 Print Assumptions C07_invcdf_enclosure.
 
-(* the complete routine (prelude, expansion, k halvings) at 0 < y < 1, break points within
-   (-(2^fuel - 1), 2^fuel - 1]: a finite value, at or above the quantile, closer than 2^fuel / 2^k *)
-Theorem C07_invcdf_generic_pw_total : forall pw bl bh fuel k y, pw_wf pw -> 0 < y -> y < 1 ->
-  (forall kn, In kn pw -> - (qpow2 fuel - 1) < fst (fst kn) /\ fst (fst kn) <= qpow2 fuel - 1) ->
-  exists x2 q, invcdf_generic (pw_cdf pw) bl bh fuel k y = IVal (XFin x2) /\ pw_quantile pw y = Some q /\
-               q <= x2 /\ (x2 - q) * qpow2 k < qpow2 fuel.
+(* the complete routine (prelude, expansion with float64 rounding, k halvings) at 0 < y < 1 in terms of
+   the quantile q: within (-2^1023, 2^1023] a finite value at or above q, closer than (|q| + 2) / 2^k;
+   beyond 2^1023 the closure returns +Inf, at or below -2^1023 it returns -Inf *)
+Theorem C07_invcdf_generic_pw_spec : forall pw bl bh k y q, pw_wf pw -> 0 < y -> y < 1 -> pw_quantile pw y = Some q ->
+  (- inject_Z go_last_probe < q -> q <= inject_Z go_last_probe ->
+     exists x2, invcdf_generic (pw_cdf pw) bl bh go_expand_fuel k y = IVal (XFin x2) /\
+                q <= x2 /\ (x2 - q) * qpow2 k < Qabs q + 2) /\
+  (inject_Z go_last_probe < q -> invcdf_generic (pw_cdf pw) bl bh go_expand_fuel k y = IVal (XInf false)) /\
+  (q <= - inject_Z go_last_probe -> invcdf_generic (pw_cdf pw) bl bh go_expand_fuel k y = IVal (XInf true)).
+Proof. exact invcdf_generic_pw_spec. Qed.
+Print Assumptions C07_invcdf_generic_pw_spec.
+
+Theorem C07_invcdf_generic_pw_total : forall pw bl bh k y, pw_wf pw -> 0 < y -> y < 1 ->
+  (forall kn, In kn pw -> - inject_Z go_last_probe < fst (fst kn) /\ fst (fst kn) <= inject_Z go_last_probe) ->
+  exists x2 q, invcdf_generic (pw_cdf pw) bl bh go_expand_fuel k y = IVal (XFin x2) /\ pw_quantile pw y = Some q /\
+               q <= x2 /\ (x2 - q) * qpow2 k < Qabs q + 2.
 Proof. exact invcdf_generic_pw_total. Qed.
 Print Assumptions C07_invcdf_generic_pw_total.
 
@@ -150,6 +195,56 @@ Theorem C07_rand_none_iff_all_zero : forall (R : Type) (inv : Q -> R) (src : lis
 Proof. exact rand_none_iff_all_zero. Qed.
 Print Assumptions C07_rand_none_iff_all_zero.
 
+(* ----- what an ACCEPTED level of the comparator (Check/C07.v, piecewise distributions, ops 0 and 4) means,
+   in terms of the specification only: the observation is within the tolerance of THE LEAST x with
+   cdf x >= y, or the matching infinity exactly when that x is out of float64's reach; NaN out of range;
+   the end-point rule.  No model function (bracket, bisection, probes, pw_quantile) in the conclusion. ----- *)
+Theorem C07_check_pw_y_sound : forall pw bl bh y st obs tag, pw_wf pw -> 0 < y -> y < 1 ->
+  check_pw_y pw bl bh (XFin y) st obs = (tag, None) ->
+  st = 0%Z /\ exists q, least_ge (pw_cdf pw) y q /\
+    ((- inject_Z go_last_probe < q /\ q <= inject_Z go_last_probe /\
+      exists o, obs = XFin o /\ Qabs (o - q) <= tol_x pw y q /\ y - eps_level <= pw_cdf pw o)
+     \/ (inject_Z go_last_probe < q /\ obs = XInf false)
+     \/ (q <= - inject_Z go_last_probe /\ obs = XInf true)).
+Proof. exact check_pw_y_sound. Qed.
+Print Assumptions C07_check_pw_y_sound.
+
+Theorem C07_check_pw_y_sound_special : forall pw bl bh y st obs tag,
+  check_pw_y pw bl bh (XFin y) st obs = (tag, None) ->
+  ((y < 0 \/ 1 < y) -> st = 0%Z /\ obs = XNaN) /\
+  (y == 0 -> st = 0%Z /\ ((pw_cdf pw bl == 0 /\ exists o, obs = XFin o /\ o == bl) \/ (~ pw_cdf pw bl == 0 /\ obs = XInf true))) /\
+  (y == 1 -> st = 0%Z /\ ((pw_cdf pw bh == 1 /\ exists o, obs = XFin o /\ o == bh) \/ (~ pw_cdf pw bh == 1 /\ obs = XInf false))).
+Proof. exact check_pw_y_sound_special. Qed.
+Print Assumptions C07_check_pw_y_sound_special.
+
+(* the direct comparison of "non-decreasing in y": an accepted list of (index, level, result) is ordered *)
+Theorem C07_mono_check_sound : forall tol l, mono_check tol l = None ->
+  forall l1 i yi xi l2 j yj xj l3, l = l1 ++ (i, yi, xi) :: l2 ++ (j, yj, xj) :: l3 ->
+  (yi <= yj -> xr_leb tol xi xj = true) /\ (yj <= yi -> xr_leb tol xj xi = true).
+Proof. exact mono_check_sound. Qed.
+Print Assumptions C07_mono_check_sound.
+
+(* the WHOLE comparator on an op-0 line (stats.InvCDF of a harness-defined piecewise distribution): an accepted
+   verdict (0 = ok, 1 = borderline) means the line parses into a well-formed cdf, every level satisfies
+   [level_spec] (Proofs/InvCDFCheck.v: NaN out of range, the end-point rule at 0 and 1, within tolerance of
+   the LEAST x with cdf x >= y or the matching infinity for 0 < y < 1) and the results are ordered like the levels *)
+Theorem C07_check_op0_sound : forall rest c tag pos diag,
+  check_C07 (7 :: 0 :: rest)%Z = verdict c tag pos diag -> (c = 0 \/ c = 1)%Z ->
+  exists pw bl bh items,
+    (do pw <- plist p_knot; do bl <- pQ; do bh <- pQ; do items <- plist p_item; pend (pw, bl, bh, items)) rest = Some ((pw, bl, bh, items), []) /\
+    pw_wf pw /\ Forall (level_spec pw bl bh) items /\ levels_ordered items.
+Proof. exact check_C07_op0_sound. Qed.
+Print Assumptions C07_check_op0_sound.
+
+Example C07_check_example :
+  (* uniform on [0, 2]: level 1/4 answered by 1/2 is accepted, by 0.5000001 it is not; a point mass beyond the
+     last probe must be answered by +Inf *)
+  snd (check_pw_y [(0, 0, 0); (2, 1, 1)] 0 2 (XFin (1 # 4)) 0 (XFin (1 # 2))) = None /\
+  snd (check_pw_y [(0, 0, 0); (2, 1, 1)] 0 2 (XFin (1 # 4)) 0 (XFin (5000001 # 10000000))) <> None /\
+  snd (check_pw_y [(inject_Z (3 * 2 ^ 1022), 0, 1)] 0 0 (XFin (1 # 2)) 0 (XInf false)) = None /\
+  snd (check_pw_y [(inject_Z (3 * 2 ^ 1022), 0, 1)] 0 0 (XFin (1 # 2)) 0 (XFin (inject_Z (3 * 2 ^ 1022)))) <> None.
+Proof. vm_compute. repeat split; try reflexivity; discriminate. Qed.
+
 (* ----- non-vacuity ----- *)
 (* ramp from -1 to 0 reaching 1/4, jump to 1/2 at 0, flat until 2, ramp to 1 at 3 *)
 Definition C07_ex : pwf := [(-1, 0, 0); (0, 1 # 4, 1 # 2); (2, 1 # 2, 1 # 2); (3, 1, 1)].
@@ -165,11 +260,11 @@ Proof. vm_compute. repeat split; reflexivity. Qed.
 Example C07_algorithm_example :
   (* left expansion, jump hit exactly / flat level: the upper end is the jump point itself *)
   invcdf_generic (pw_cdf C07_ex) (-1) 3 go_expand_fuel 30 (1 # 2) = IVal (XFin 0) /\
-  bracket (pw_cdf C07_ex) go_expand_fuel (1 # 2) = Some (-1, 0) /\
+  bracket (pw_cdf C07_ex) go_expand_fuel (1 # 2) = BFound (-1) 0 /\
   (* right expansion 0 -> 1 -> 3, ramp *)
-  bracket (pw_cdf C07_ex) go_expand_fuel (3 # 4) = Some (1, 3) /\
+  bracket (pw_cdf C07_ex) go_expand_fuel (3 # 4) = BFound 1 3 /\
   invcdf_generic (pw_cdf C07_ex) (-1) 3 go_expand_fuel 30 (3 # 4) = IVal (XFin (5 # 2)) /\
-  (* fuel too small to reach the support: explicit result *)
+  (* fuel too small to reach the support (model artefact, never with go_expand_fuel) *)
   invcdf_generic (pw_cdf C07_ex) (-1) 3 1 30 (3 # 4) = INoBracket false /\
   (* special values *)
   invcdf_generic (pw_cdf C07_ex) (-1) 3 go_expand_fuel 30 0 = IVal (XFin (-1)) /\
@@ -179,6 +274,18 @@ Example C07_algorithm_example :
   invcdf_generic (pw_cdf C07_ex) (-1) 3 go_expand_fuel 30 (-1 # 10) = IVal XNaN /\
   invcdf_generic (pw_cdf C07_ex) (-1) 3 go_expand_fuel 30 (11 # 10) = IVal XNaN /\
   pw_invcdf C07_ex (-1) 3 30 XNaN = IPanic.
+Proof. vm_compute. repeat split; reflexivity. Qed.
+
+(* far out and beyond the last probe: a point mass at 3 * 2^1022 is not reachable, one at 2^1023 is;
+   2^54 - 1 is not a float64: the probe after 2^53 - 1 is 2^54 *)
+Example C07_overflow_example :
+  let far := inject_Z (3 * 2 ^ 1022) in let last := inject_Z (2 ^ 1023) in
+  invcdf_generic (pw_cdf [(far, 0, 1)]) far far go_expand_fuel 0 (1 # 2) = IVal (XInf false) /\
+  invcdf_generic (pw_cdf [(- far, 0, 1)]) (- far) (- far) go_expand_fuel 0 (1 # 2) = IVal (XInf true) /\
+  invcdf_generic (pw_cdf [(- last, 0, 1)]) (- last) (- last) go_expand_fuel 0 (1 # 2) = IVal (XInf true) /\
+  invcdf_generic (pw_cdf [(last, 0, 1)]) last last go_expand_fuel 0 (1 # 2) = IVal (XFin last) /\
+  bracket (pw_cdf [(inject_Z (2 ^ 54), 0, 1)]) go_expand_fuel (1 # 2) = BFound (2 ^ 53 - 1) (2 ^ 54) /\
+  f64_round_Z (2 ^ 54 - 1) = Some (2 ^ 54)%Z /\ f64_round_Z (2 ^ 1023 + 2 ^ 1023) = None.
 Proof. vm_compute. repeat split; reflexivity. Qed.
 
 Example C07_rand_example :
